@@ -200,7 +200,13 @@ func (x *Exec) execInstr(fr *Frame, b *ssa.BasicBlock, ins ssa.Instruction, st *
 			x.setv(fr, i, x.havocValue(st, i.Type(), "assert"))
 			return
 		}
-		x.setv(fr, i, x.havocValue(st, i.Type(), "assert"))
+		hv := x.havocValue(st, i.Type(), "assert")
+		if v.K == KIface && hv.K == KTuple && len(hv.Fields) == 2 {
+			// v, ok := e.(T): ok is a FUNCTION of the interface value and T ("the dynamic type of e is
+			// T"), the same one the contract builtin istype(e, T) denotes
+			hv.Fields[1] = Value{K: KScalar, T: types.Typ[types.Bool], X: x.dynTypeIs(v.X, i.AssertedType)}
+		}
+		x.setv(fr, i, hv)
 	case *ssa.MakeClosure:
 		fn := i.Fn.(*ssa.Function)
 		var binds []Value
@@ -797,4 +803,14 @@ func contractMentionsLocks(fc *FuncContract) bool {
 		}
 	}
 	return false
+}
+
+// isType: the uninterpreted predicate "the dynamic type of interface value e is T" (named after T).
+func (x *Exec) dynTypeIs(e *Term, t types.Type) *Term {
+	name := "istype!" + strings.NewReplacer(" ", "_", "*", "ptr.", "/", ".", "(", "", ")", "", "[", "", "]", "", "{", "", "}", "").Replace(t.String())
+	if _, ok := x.vc.declared[name]; !ok {
+		x.vc.declared[name] = SBool
+		x.vc.items = append(x.vc.items, Item{Kind: "declfun", Name: name, Raw: fmt.Sprintf("(declare-fun |%s| (Int) Bool)", name)})
+	}
+	return App("|"+name+"|", SBool, e)
 }
